@@ -36,8 +36,8 @@ type inliner struct {
 	w       *World
 	counter int
 	// per file: textual replacements (byte offsets in the original file)
-	edits   map[string][]textEdit
-	imports map[string]map[string]string // unused (helpers are inlined only where every package they need is already imported)
+	edits         map[string][]textEdit
+	imports       map[string]map[string]string // unused (helpers are inlined only where every package they need is already imported)
 	missingImport bool
 	inlined       map[*types.Func]int
 	// errCont, when set, is the caller's `if err != nil {…}` continuation pushed into every return of the helper
@@ -66,15 +66,20 @@ func (w *World) pkgOfFile(f *ast.File) *packages.Package {
 
 // helperDecl: the declaration of the function object if it is an inlinable private helper.
 func (il *inliner) helperDecl(obj *types.Func) (*ast.FuncDecl, *packages.Package, *ast.File) {
-	if obj == nil || obj.Pkg() == nil || obj.Exported() {
+	if obj == nil || obj.Pkg() == nil {
 		return nil, nil, nil
 	}
+	// exported helpers too (keepers export nearly everything), as long as no rule names them (frozenSigs below); they
+	// are inlined only into callers of their own package (tryInline) and deleted only if no package mentions the name
 	path := obj.Pkg().Path()
 	if !strings.HasPrefix(path, modPrefix) || scopeExcluded(relPkg(path)) {
 		return nil, nil, nil
 	}
 	if _, anchored := frozenSigs[ObjKey(obj)]; anchored {
 		return nil, nil, nil
+	}
+	if obj.Exported() && frozenExported[ObjKey(obj)] {
+		return nil, nil, nil // an exported function that already existed when the tables were frozen stays a call
 	}
 	p := il.w.PkgBy[relPkg(path)]
 	if p == nil {
@@ -598,7 +603,7 @@ func (w *World) BuildNormalForm() map[string][]byte {
 			tryInline := func(ce *ast.CallExpr) (string, []string, bool) {
 				callee := calleeObj(p, ce)
 				hd, hp, hf := il.helperDecl(callee)
-				if hd == nil || callee == fobj {
+				if hd == nil || callee == fobj || (callee.Exported() && hp != p) {
 					return "", nil, false
 				}
 				txt, res, ok := il.inlineText(ce, hd, hp, hf, p, file)
@@ -1042,6 +1047,24 @@ func (il *inliner) dropInlinedHelpers(out map[string][]byte) {
 		if occ != 1 || declFile == "" {
 			continue
 		}
+		if obj.Exported() {
+			// an exported name may be used from other packages or named by an interface there
+			other := false
+			for _, q := range w.Pkgs {
+				if q == p || !strings.HasPrefix(q.PkgPath+"/", modPrefix) {
+					continue
+				}
+				for _, f := range q.Syntax {
+					fname := w.Fset.Position(f.Pos()).Filename
+					if identOccurrences(fname, text(fname), obj.Name(), re) > 0 {
+						other = true
+					}
+				}
+			}
+			if other {
+				continue
+			}
+		}
 		src := text(declFile)
 		fs := token.NewFileSet()
 		pf, err := parser.ParseFile(fs, declFile, src, parser.ParseComments)
@@ -1105,7 +1128,6 @@ func blankUnusedImports(fname, src string, p *packages.Package) string {
 	return src
 }
 
-
 // mayReturnNilError: the callee is declared in the repository and is either an interface method or has a return whose
 // last result is the literal nil; error constructors (Wrapf, NewError, …) never qualify, so `return ErrX.Wrapf(…)`
 // keeps its form and no spurious `return nil` appears after it.
@@ -1146,7 +1168,6 @@ func (il *inliner) mayReturnNilError(p *packages.Package, ce *ast.CallExpr) bool
 	return found
 }
 
-
 // identOccurrences counts identifiers called name in the code of src (comments and strings do not count); when the
 // text does not parse the textual count is used (conservative: more occurrences keep the declaration).
 func identOccurrences(fname, src, name string, re *regexp.Regexp) int {
@@ -1166,7 +1187,6 @@ func identOccurrences(fname, src, name string, re *regexp.Regexp) int {
 	})
 	return n
 }
-
 
 // errCheckCond: cond is `e != nil` on exactly the variable e.
 func errCheckCond(p *packages.Package, cond ast.Expr, e types.Object) bool {
@@ -1199,7 +1219,6 @@ func terminates(b *ast.BlockStmt) bool {
 	}
 	return false
 }
-
 
 func squeeze(s string) string {
 	return strings.Join(strings.Fields(s), "")
@@ -1279,7 +1298,6 @@ func nonNilError(p *packages.Package, e ast.Expr) bool {
 	return false
 }
 
-
 // allocatingCtor: a repository function with one result of a concrete (non-interface) type all of whose returns are
 // `&T{…}` — an error constructor such as tss.NewError; its result is never nil.
 func allocatingCtor(obj *types.Func) bool {
@@ -1333,7 +1351,6 @@ func allocatingCtor(obj *types.Func) bool {
 
 var curWorldForInline *World
 
-
 // hasBreakOrFallthrough: the switch contains a fallthrough, or an unlabelled break that refers to it.
 func hasBreakOrFallthrough(sw *ast.SwitchStmt) bool {
 	found := false
@@ -1363,7 +1380,6 @@ func hasBreakOrFallthrough(sw *ast.SwitchStmt) bool {
 	return found
 }
 
-
 // sameResults: the callee's result types are identical, one by one, to the results of sig.
 func sameResults(sig *types.Signature, callee *types.Func) bool {
 	if callee == nil {
@@ -1380,7 +1396,6 @@ func sameResults(sig *types.Signature, callee *types.Func) bool {
 	}
 	return true
 }
-
 
 // maxUpdate recognises `x = max(x, e)` / `x = max(e, x)` (and min) with the builtin on an integer variable.
 func (il *inliner) maxUpdate(p *packages.Package, as *ast.AssignStmt, ce *ast.CallExpr) (string, bool) {
@@ -1433,7 +1448,6 @@ func (il *inliner) typeTextOf(t types.Type, p *packages.Package, at ast.Node) st
 	return types.TypeString(t, func(o *types.Package) string { return o.Name() })
 }
 
-
 // usesOf counts the uses of object o in the function declaration.
 func usesOf(p *packages.Package, fd *ast.FuncDecl, o types.Object) int {
 	n := 0
@@ -1445,7 +1459,6 @@ func usesOf(p *packages.Package, fd *ast.FuncDecl, o types.Object) int {
 	})
 	return n
 }
-
 
 // stmtRoots: the expressions a simple statement evaluates, in order (only for the statement kinds that can be
 // preceded by hoisted code without changing scopes or evaluation order).
@@ -1548,7 +1561,6 @@ func findHoist(p *packages.Package, roots []ast.Expr, want func(*ast.CallExpr) b
 	}
 	return found
 }
-
 
 // lorOperands flattens a || b || c into its operands (nil when the condition is not a disjunction).
 func lorOperands(e ast.Expr) []ast.Expr {
